@@ -8,8 +8,8 @@
    that produced it; and the elements a list or vector hands out (the cars of
    the chain and a dotted tail; the parts of a quotation) lie one after another,
    without overlap, inside the span of the list or vector itself, at every
-   depth (C11_nesting_order_partial). Not proved: that spans are non-empty,
-   that the covered text re-parses to the sub-datum, and that the three sources
+   depth (C11_nesting_order_partial); every span handed out is non-empty
+   (C11_spans_nonempty_partial). Not proved: that the covered text re-parses to the sub-datum, and that the three sources
    report the same spans; these are decided by the correspondence (spans
    compared on every case, three sources) and the implementation-level oracle
    (theorems.json). *)
@@ -69,6 +69,26 @@ Proof.
   destruct (next_datum ro alpha fast std_parse fuel s) as [[[d|]|e] s1]; try exact I. apply H.
 Qed.
 Print Assumptions C11_nesting_every_call_partial.
+
+(* Non-empty spans. nef false i, by recursion over the span tree: every leaf,
+   every vector and every list head has start < end (strictly), and so have
+   their elements at every depth; the placeholder cells of a cons chain are
+   exempt, as is the one leaf that ends a chain (the end marker, or the atom
+   after a dot). The token a datum starts with is consumed (token_strict: for
+   every option set and source kind a successful parse_token moves the position
+   strictly forward). *)
+Theorem C11_spans_nonempty_partial : forall ro alpha fast std_parse k inp d,
+  datum_from_trait ro alpha fast std_parse k inp = POk d -> nef false (dinfo d).
+Proof. exact datum_from_trait_nonempty. Qed.
+Print Assumptions C11_spans_nonempty_partial.
+
+Theorem C11_token_consumes : forall ro alpha fast std_parse fuel b r, RelFramework.at_byte b r ->
+  match parse_token ro alpha fast std_parse fuel b r with
+  | (Ok _, r') => pos_lt (rpos r) (rpos r')
+  | (Err _, _) => True
+  end.
+Proof. exact token_strict. Qed.
+Print Assumptions C11_token_consumes.
 
 (* the reader position never moves backwards, in any token function *)
 Theorem C11_position_monotone : forall ro alpha fast std_parse fuel b r,
